@@ -66,6 +66,27 @@ func (r *RuleInfo) DomAll(f *Fn, what string, b Sel, bDepth int, a Sel, aDepth i
 	for _, bo := range f.Occs(b, bDepth) {
 		n++
 		res := f.Dominated(bo, as, ex...)
+		if !res.OK && bo.Depth > 0 {
+			// both sites sit in the same callee (a helper that was extracted): decide the order inside it
+			for _, ao := range as {
+				if ao.Node == bo.Node && ao.Depth > 0 {
+					if call, isCall := bo.Node.(*ast.CallExpr); isCall {
+						if cal := f.W.calleeFn(f, call); cal != nil && cal != f {
+							inner := true
+							innerAs := cal.Occs(a, aDepth-1)
+							for _, ib := range cal.Occs(b, bDepth-1) {
+								if !cal.Dominated(ib, innerAs, ex...).OK {
+									inner = false
+								}
+							}
+							if inner {
+								res = OrderResult{OK: true}
+							}
+						}
+					}
+				}
+			}
+		}
 		r.Order(res, f, k.key(what, f.W, bo.Node), bo.Node, what+" not preceded on every path by "+a.Key)
 	}
 	return n
@@ -451,4 +472,29 @@ func (w *World) errCheckOf(call *ast.CallExpr) ast.Expr {
 func excuseErrOf(w *World, call *ast.CallExpr) Excuse {
 	cond := w.errCheckOf(call)
 	return Excuse{Cond: func(e ast.Expr) bool { return cond != nil && e == cond }, Val: true}
+}
+
+func isBoolLocal(w *World, id *ast.Ident) bool {
+	v, ok := w.Use(id).(*types.Var)
+	return ok && !v.IsField() && types.Identical(v.Type(), types.Typ[types.Bool])
+}
+
+// litRoles identifies local closures by what they do, so that renaming the local variable a
+// closure is bound to does not break an anchor.
+var litRoles = map[string]func(w *World) Sel{
+	"badger.Txn.commitAndSend$ret":                           func(w *World) Sel { return selCallName(w, "badger.request.Wait") },
+	"badger.Txn.commitAndSend$processEntry":                  func(w *World) Sel { return selCallName(w, "y.KeyWithTs") },
+	"badger.Txn.commitAndSend$setVersion":                    func(w *World) Sel { return selStore(w.Field("badger.Entry.version")) },
+	"badger.DB.writeRequests$done":                           func(w *World) Sel { return selStore(w.Field("badger.request.Err")) },
+	"badger.DB.doWrites$writeRequests":                       func(w *World) Sel { return selCallName(w, "badger.DB.writeRequests") },
+	"badger.DB.dropAll$resume":                               func(w *World) Sel { return selCallName(w, "badger.DB.startCompactions") },
+	"badger.levelsController.subcompact$addKeys":             func(w *World) Sel { return selCallName(w, "table.Builder.Add") },
+	"badger.levelsController.compactBuildTables$newIterator": func(w *World) Sel { return selCallName(w, "table.NewConcatIterator") },
+	"y.WaterMark.process$processOne":                         func(w *World) Sel { return selCall(w.Func("heap.Pop")) },
+	"badger.Stream.produceKVs$iterate":                       func(w *World) Sel { return selCallName(w, "badger.Txn.NewIterator") },
+	"badger.valueLog.rewrite$fe":                             func(w *World) Sel { return selCallName(w, "badger.discardEntry") },
+	"badger.storeDataKey$xor":                                func(w *World) Sel { return selCallName(w, "y.XORBlockAllocate") },
+	"badger.DB.MaxVersion$update": func(w *World) Sel {
+		return selPred("any", func(w *World, f *Fn, n ast.Node) bool { _, ok := n.(*ast.IfStmt); return ok })
+	},
 }
